@@ -804,4 +804,261 @@ theorem inIntSpan_sound (k : Nat) (B : List (List Int)) (e : List Int) (h : inIn
     subst hz
     simpa [vecEq] using h3
 
+
+/-! ### the verdicts are exact: completeness of `independent` and `inIntSpan` -/
+
+lemma dot_comb_eq_zero' {k : Nat} {r z : List Int} {K : List (List Int)} (hK : ∀ b ∈ K, b.length = k)
+    (h : ∀ b ∈ K, dot r b = 0) : dot r (comb k z K) = 0 := by
+  rw [dot_comb k r z K hK, dot_comm]
+  apply dot_eq_zero_of_forall_zero
+  intro x hx
+  obtain ⟨b, hb, rfl⟩ := List.mem_map.1 hx
+  exact h b hb
+
+lemma exists_fit' (k : Nat) (B : List (List Int)) (hB : ∀ b ∈ B, b.length = k) (z : List Int) :
+    ∃ z' : List Int, z'.length = B.length ∧ comb k z' B = comb k z B := by
+  induction B generalizing z with
+  | nil => exact ⟨[], rfl, by simp⟩
+  | cons b bs ih =>
+    have hbs : ∀ r ∈ bs, r.length = k := fun r hr => hB r (by simp [hr])
+    cases z with
+    | nil =>
+      refine ⟨zeros (bs.length + 1), by simp, ?_⟩
+      rw [comb_zeros k _ _ hB]; simp
+    | cons x xs =>
+      obtain ⟨z', hl, hz'⟩ := ih hbs xs
+      exact ⟨x :: z', by simp [hl], by simp [hz']⟩
+
+lemma eq_zeros_of_getD {l : List Int} {k : Nat} (hl : l.length = k) (h : ∀ j < k, l.getD j 0 = 0) :
+    l = zeros k := by
+  induction l generalizing k with
+  | nil => subst hl; rfl
+  | cons a as ih =>
+    cases k with
+    | zero => simp at hl
+    | succ k =>
+      simp at hl
+      have ha : a = 0 := by simpa using h 0 (Nat.succ_pos k)
+      have := ih hl (fun j hj => by simpa using h (j + 1) (Nat.succ_lt_succ hj))
+      rw [ha, this]; simp
+
+lemma comb_zero_iff_transposeK {k : Nat} {B : List (List Int)} (hB : ∀ b ∈ B, b.length = k)
+    (z : List Int) : (∀ r ∈ transposeK k B, dot r z = 0) ↔ comb k z B = zeros k := by
+  constructor
+  · intro h
+    apply eq_zeros_of_getD (length_comb k z B hB)
+    intro j hj
+    rw [getD_comb k z B hB j]
+    exact h _ (List.mem_map.2 ⟨j, List.mem_range.2 hj, rfl⟩)
+  · exact dot_transposeK_of_comb_zero hB
+
+/-- the integer relations among the rows of `B` -/
+theorem relations_isBasis (k : Nat) (B : List (List Int)) (hB : ∀ b ∈ B, b.length = k) :
+    IsBasisOf B.length (fun z => comb k z B = zeros k) (relations k B) :=
+  (intKernel_isBasis B.length (transposeK k B)).congr (fun z _ => comb_zero_iff_transposeK hB z)
+
+/-- `independent` answers `true` on every independent family -/
+theorem independent_complete (k : Nat) (B : List (List Int)) (hB : ∀ b ∈ B, b.length = k)
+    (h : ∀ z : List Int, z.length = B.length → comb k z B = zeros k → ∀ c ∈ z, c = 0) :
+    independent k B = true := by
+  have hR := relations_isBasis k B hB
+  unfold independent
+  cases hrel : relations k B with
+  | nil => rfl
+  | cons r rest =>
+    exfalso
+    rw [hrel] at hR
+    have hr0 := h r (hR.len r (by simp)) (hR.sound r (by simp))
+    have hrz : r = zeros B.length := by
+      have := eq_zeros_of_forall hr0
+      rwa [hR.len r (by simp)] at this
+    have := hR.indep (1 :: zeros rest.length) (by simp) (by
+      rw [comb_cons, comb_zeros _ _ _ (fun b hb => hR.len b (by simp [hb])), hrz]
+      simp [smul_zeros]
+      have := vadd_zeros_left (zeros B.length)
+      simpa using this) 1 (by simp)
+    exact one_ne_zero this
+
+theorem independent_iff (k : Nat) (B : List (List Int)) (hB : ∀ b ∈ B, b.length = k) :
+    independent k B = true ↔
+      ∀ z : List Int, z.length = B.length → comb k z B = zeros k → ∀ c ∈ z, c = 0 :=
+  ⟨independent_sound k B hB, independent_complete k B hB⟩
+
+lemma comb_append (k : Nat) (z w : List Int) (B C : List (List Int)) (hz : z.length = B.length)
+    (hB : ∀ b ∈ B, b.length = k) (hC : ∀ b ∈ C, b.length = k) :
+    comb k (z ++ w) (B ++ C) = vadd (comb k z B) (comb k w C) := by
+  induction z generalizing B with
+  | nil =>
+    have : B = [] := List.length_eq_zero_iff.1 hz.symm
+    subst this
+    simp
+    have := vadd_zeros_left (comb k w C)
+    rw [length_comb k w C hC] at this
+    exact this.symm
+  | cons x xs ih => cases B with
+    | nil => simp at hz
+    | cons b bs =>
+      simp at hz
+      have hbs : ∀ r ∈ bs, r.length = k := fun r hr => hB r (by simp [hr])
+      simp only [List.cons_append, comb_cons]
+      rw [ih bs hz hbs, vadd_assoc]
+
+lemma take_smul (c : Int) (v : List Int) (n : Nat) : (smul c v).take n = smul c (v.take n) := by
+  simp [smul, List.map_take]
+
+lemma eq_take_append_getD (v : List Int) (m : Nat) (h : v.length = m + 1) :
+    v = v.take m ++ [v.getD m 0] := by
+  induction v generalizing m with
+  | nil => simp at h
+  | cons a as ih =>
+    cases m with
+    | zero =>
+      have : as = [] := List.length_eq_zero_iff.1 (by simpa using h)
+      subst this; simp
+    | succ m =>
+      simp at h
+      have := ih m h
+      simp only [List.take_succ_cons, List.cons_append, List.getD_cons_succ]
+      rw [← this]
+
+lemma smul_neg_of_vadd_eq_zeros (g : Int) (hg : g * g = 1) (a e : List Int) (k : Nat)
+    (ha : a.length = k) (he : e.length = k) (h : vadd a (smul g e) = zeros k) : smul (-g) a = e := by
+  induction a generalizing e k with
+  | nil =>
+    subst ha
+    have : e = [] := List.length_eq_zero_iff.1 he
+    subst this; rfl
+  | cons x xs ih =>
+    cases e with
+    | nil => subst he; simp at ha
+    | cons y ys =>
+      cases k with
+      | zero => simp at ha
+      | succ k =>
+        simp at ha he
+        simp only [smul_cons, vadd_cons, zeros_succ, List.cons.injEq] at h
+        obtain ⟨h1, h2⟩ := h
+        simp only [smul_cons, List.cons.injEq]
+        refine ⟨?_, ih ys k ha he h2⟩
+        have : x = -(g * y) := by linarith
+        rw [this]
+        calc -g * -(g * y) = (g * g) * y := by ring
+          _ = y := by rw [hg, one_mul]
+
+lemma spanCoeffs_eq (k : Nat) (B : List (List Int)) (e : List Int) :
+    spanCoeffs k B e =
+      if (kerOne ((relations k (B ++ [e])).map (fun r => r.getD B.length 0))).g = 1 ∨
+          (kerOne ((relations k (B ++ [e])).map (fun r => r.getD B.length 0))).g = -1 then
+        if vecEq (comb k ((smul (-(kerOne ((relations k (B ++ [e])).map (fun r => r.getD B.length 0))).g)
+            (comb (B.length + 1) (kerOne ((relations k (B ++ [e])).map (fun r => r.getD B.length 0))).u
+              (relations k (B ++ [e])))).take B.length) B) e then
+          some ((smul (-(kerOne ((relations k (B ++ [e])).map (fun r => r.getD B.length 0))).g)
+            (comb (B.length + 1) (kerOne ((relations k (B ++ [e])).map (fun r => r.getD B.length 0))).u
+              (relations k (B ++ [e])))).take B.length)
+        else none
+      else none := rfl
+
+/-- `inIntSpan` answers `true` on every integer combination of the rows -/
+theorem inIntSpan_complete (k : Nat) (B : List (List Int)) (hB : ∀ b ∈ B, b.length = k)
+    (e : List Int) (he : e.length = k) (z : List Int) (hz : z.length = B.length) (hze : comb k z B = e) :
+    inIntSpan k B e = true := by
+  have hB' : ∀ b ∈ B ++ [e], b.length = k := by
+    intro b hb
+    rcases List.mem_append.1 hb with hb | hb
+    · exact hB b hb
+    · simp at hb; subst hb; exact he
+  have hR := relations_isBasis k (B ++ [e]) hB'
+  have hlen : (B ++ [e]).length = B.length + 1 := by simp
+  rw [hlen] at hR
+  set R := relations k (B ++ [e]) with hRdef
+  set last := R.map (fun r => r.getD B.length 0) with hlast
+  have hspec := kerOne_spec last
+  -- the relation (z, -1)
+  have hy0 : comb k (z ++ [-1]) (B ++ [e]) = zeros k := by
+    rw [comb_append k z [-1] B [e] hz hB (by simp [he]), hze]
+    simp only [comb_cons, comb_nil_left]
+    have h1 : vadd (smul (-1) e) (zeros k) = smul (-1) e := by
+      have := vadd_zeros_right (smul (-1) e)
+      simpa [he] using this
+    rw [h1]
+    have := vadd_smul_cancel 1 e (zeros k) (by simp [he])
+    -- e + (-1)•e = 0
+    apply eq_zeros_of_getD (by rw [length_vadd _ _ (by simp), he])
+    intro j _
+    rw [getD_vadd _ _ (by simp), getD_smul]; ring
+  obtain ⟨c, hcl, hc⟩ := hR.complete (z ++ [-1]) (by simp [hz]) hy0
+  -- last coordinate: dot last c = -1
+  have hdot : dot last c = -1 := by
+    have h1 := getD_comb (B.length + 1) c R hR.len B.length
+    rw [hc] at h1
+    have h2 : (z ++ [-1]).getD B.length 0 = -1 := by
+      rw [← hz]; simp
+    rw [h2] at h1
+    exact h1.symm
+  have hgdvd : (kerOne last).g ∣ -1 := by
+    rw [← hdot]; exact dvd_dot hspec.dvd c
+  have hg1 : (kerOne last).g = 1 ∨ (kerOne last).g = -1 := by
+    have : (kerOne last).g ∣ 1 := (dvd_neg).1 hgdvd
+    exact Int.isUnit_iff.1 (isUnit_of_dvd_one this)
+  have hgg : (kerOne last).g * (kerOne last).g = 1 := by
+    rcases hg1 with h | h <;> rw [h] <;> norm_num
+  -- the relation v with last coordinate g
+  set v := comb (B.length + 1) (kerOne last).u R with hv
+  have hvlen : v.length = B.length + 1 := length_comb _ _ _ hR.len
+  have hvrel : comb k v (B ++ [e]) = zeros k := by
+    rw [← comb_zero_iff_transposeK hB']
+    intro r hr
+    rw [hv]
+    have hl2 : ∀ b ∈ R, b.length = B.length + 1 := hR.len
+    apply dot_comb_eq_zero' hl2
+    intro b hb
+    exact ((comb_zero_iff_transposeK hB' b).2 (hR.sound b hb)) r hr
+  have hvlast : v.getD B.length 0 = (kerOne last).g := by
+    rw [hv, getD_comb (B.length + 1) _ R hR.len B.length]
+    exact hspec.bez
+  have hsplit := eq_take_append_getD v B.length hvlen
+  rw [hvlast] at hsplit
+  have hrel2 : vadd (comb k (v.take B.length) B) (smul (kerOne last).g e) = zeros k := by
+    rw [hsplit] at hvrel
+    rw [comb_append k (v.take B.length) [(kerOne last).g] B [e] (by simp [hvlen]) hB (by simp [he])] at hvrel
+    simp only [comb_cons, comb_nil_left] at hvrel
+    have h1 : vadd (smul (kerOne last).g e) (zeros k) = smul (kerOne last).g e := by
+      have := vadd_zeros_right (smul (kerOne last).g e)
+      simpa [he] using this
+    rwa [h1] at hvrel
+  have hfinal : comb k ((smul (-(kerOne last).g) v).take B.length) B = e := by
+    rw [take_smul, comb_smul k _ _ B hB]
+    exact smul_neg_of_vadd_eq_zeros _ hgg _ e k (length_comb k _ B hB) he hrel2
+  unfold inIntSpan
+  rw [spanCoeffs_eq]
+  simp only [Bool.and_eq_true, beq_iff_eq]
+  refine ⟨he, ?_⟩
+  rw [if_pos hg1, if_pos (by simp only [vecEq, beq_iff_eq]; exact hfinal)]
+  rfl
+
+theorem inIntSpan_iff (k : Nat) (B : List (List Int)) (hB : ∀ b ∈ B, b.length = k) (e : List Int) :
+    inIntSpan k B e = true ↔ e.length = k ∧ ∃ z : List Int, z.length = B.length ∧ comb k z B = e := by
+  constructor
+  · intro h
+    have hl : e.length = k := by
+      unfold inIntSpan at h
+      simp only [Bool.and_eq_true, beq_iff_eq] at h
+      exact h.1
+    obtain ⟨z, hz⟩ := inIntSpan_sound k B e h
+    obtain ⟨z', hl', hz'⟩ := exists_fit' k B hB z
+    exact ⟨hl, z', hl', hz'.trans hz⟩
+  · rintro ⟨hl, z, hz, hze⟩
+    exact inIntSpan_complete k B hB e hl z hz hze
+
+
+/-- non-vacuity of the hypotheses of `inIntSpan_sound`, `independent_sound`, `inIntSpan_complete`;
+`inIntSpan` also handles dependent rows -/
+example : inIntSpan 2 [[-3, 2]] [6, -4] = true ∧ inIntSpan 2 [[-6, 4]] [-3, 2] = false ∧
+    inIntSpan 3 [[1, 0, 0], [0, 2, 0], [1, 0, 0]] [5, 4, 0] = true ∧
+    independent 3 [[1, 0, 0], [0, 2, 0], [1, 0, 1]] = true ∧
+    independent 3 [[1, 0, 0], [0, 2, 0], [1, 0, 0]] = false ∧
+    intKernel 3 [[2, 3, 1]] ≠ [] := by
+  refine ⟨by decide +kernel, by decide +kernel, by decide +kernel, by decide +kernel, by decide +kernel,
+    by decide +kernel⟩
+
 end Polar.Lattice
